@@ -9,7 +9,26 @@ from pyvc.values import V
 
 from annet.annlib.tabparser import BlockEnd, _CommentOrEmpty   # native sentinels (for native execution of the specs)
 
+from bounded.gen_text import texts
+
 M = SpecModule("tabparser")
+
+
+def _line_inputs():
+    import itertools
+    for n in range(0, 5):
+        for c in itertools.product(" \ta", repeat=n):
+            yield dict(line="".join(c))
+
+
+def _text_inputs(max_lines=3):
+    def gen():
+        for t in texts(max_lines, max_indent=3):
+            yield dict(lines=t, comments=("!", "#"))
+        for t in texts(2, max_indent=2):
+            yield dict(lines=t, comments=("!",))
+    return gen
+
 U = M.U
 F = "annet/annlib/tabparser.py"
 
@@ -159,23 +178,23 @@ M.lemma("nn_off_out", vars=dict(toks=SeqIndTok, cols=SeqInt, g=INT, has_g=BOOL),
 M.contract(F, "_parse_indent", params=dict(line=STR), ret=INT,
            ensures=["result == lead(line)"],
            loops={1: dict(match="line", inv=["level + lead(_rest1) == lead(line)", "level >= 0"])},
-           canaries=["result == lead(line) + 1"],
+           canaries=["result == lead(line) + 1"], inputs=_line_inputs,
            properties=["C05", "C04"])
 
 M.contract(F, "_filtered_lines", params=dict(lines=SeqStr, comments=SeqStr), yields=SeqTok,
            ensures=["result == spec_filtered(lines, comments)"],
            loops={1: dict(match="lines", inv=["_out + spec_filtered(_rest1, comments) == spec_filtered(lines, comments)"])},
-           canaries=["len(result) == 0"],
+           canaries=["len(result) == 0"], inputs=_text_inputs(),
            properties=["C05", "C04"])
 
 M.contract(F, "_parsed_indents", params=dict(lines=SeqStr, comments=SeqStr), yields=SeqIndTok,
            ensures=["result == spec_parsed(lines, comments)"],
            loops={1: dict(match="_filtered_lines(lines, comments)",
                           inv=["_out + map_parsed(_rest1) == map_parsed(_it1)"])},
-           canaries=["len(result) == 0"],
+           canaries=["len(result) == 0"], inputs=_text_inputs(),
            properties=["C05", "C04"])
 
-M.contract(F, "_stripped_indents", params=dict(lines=SeqStr, comments=SeqStr), yields=SeqOut,
+M.contract(F, "_stripped_indents", params=dict(lines=SeqStr, comments=SeqStr), yields=SeqOut, shards=8,
            locals=dict(indents=SeqInt, curr_level=INT, g_level=OptInt),
            ensures=["result == off_out(spec_parsed(lines, comments), [], 0, False)"],
            raises={"ParserError": ["off_err(spec_parsed(lines, comments), [], 0, False)"]},
@@ -184,15 +203,17 @@ M.contract(F, "_stripped_indents", params=dict(lines=SeqStr, comments=SeqStr), y
                1: dict(match="enumerate(_parsed_indents(lines, comments), start=1)",
                        inv=["curr_level == total(indents)",
                             "len(psum(indents)) == len(indents)",
+                            "top(psum(indents)) == curr_level",
                             "off_err(_rest1, psum(indents), (g_level or 0), g_level is not None) == off_err(_it1, [], 0, False)",
                             "_out + off_out(_rest1, psum(indents), (g_level or 0), g_level is not None) == off_out(_it1, [], 0, False)"]),
                2: dict(match="curr_level > level and len(indents)",
                        inv=["curr_level == total(indents)",
                             "len(psum(indents)) == len(indents)",
+                            "top(psum(indents)) == curr_level",
                             "dropgt(psum(indents), level) == dropgt(psum(entry(indents)), level)"],
                        decreases="len(indents)"),
            },
-           canaries=["len(result) == 0"],
+           canaries=["len(result) == 0"], inputs=_text_inputs(),
            properties=["C05", "C04"])
 
 M.contract(F, "_stacked", params=dict(lines=SeqStr, comments=SeqStr), yields=SeqStack,
@@ -203,5 +224,5 @@ M.contract(F, "_stacked", params=dict(lines=SeqStr, comments=SeqStr), yields=Seq
            loops={1: dict(match="_stripped_indents(lines, comments)",
                           inv=["nn(_rest1)", "_out + stk_run(_rest1, stack) == stk_run(_it1, [])"])},
            use=["nn_off_out"],
-           canaries=["len(result) == 0"],
+           canaries=["len(result) == 0"], inputs=_text_inputs(),
            properties=["C05", "C04"])
